@@ -1,5 +1,6 @@
 import MypyVerif.Model.VTable
 import MypyVerif.Model.ForRange
+import MypyVerif.Model.ErrEdges
 /-!
 Line-protocol driver for the C05 models (model files only).
 
@@ -12,6 +13,10 @@ Line-protocol driver for the C05 models (model files only).
   R <startTy> <endTy> <step> <start> <stop> <n>
       → `idx=<ty> cmp=<lt|gt> add=<intop|tagged> lit=<k> init=<v|raise> visit=<v,…> py=<v,…>|len=<n>`
         visit = first n values of the emitted loop; py = first n values of range() and its length
+  E <block> ; <block> ; …     one function; block = `<op> <op> … # <term>`,
+        op = `<dest|->:<use,use,…>:<n|m|f|a>:<0|1>` (error kind never/magic/false/always; 1 = IncRef/DecRef),
+        term = `g <l>` | `b <e|b> <value|-> <negated 0|1> <true> <false>` | `r` | `u`
+      → `ok` | `bad <index of the first block checkBlock rejects>`
 -/
 open VTable ForRange
 
@@ -71,6 +76,46 @@ def parseTy (s : String) : Option RTy :=
 def showTy : RTy → String
   | .short => "short" | .int => "int" | .i64 => "i64" | .i32 => "i32" | .i16 => "i16" | .u8 => "u8"
 
+def parseEOp (t : String) : Option ErrEdges.Op :=
+  match t.splitOn ":" with
+  | [d, us, k, r] =>
+    let ek : Option ErrEdges.EK := match k with
+      | "n" => some .never | "m" => some .magic | "f" => some .false_ | "a" => some .always | _ => none
+    ek.map fun ek => { dest := d.toNat?, uses := parseNats us, ek := ek, refOnly := r == "1" }
+  | _ => none
+
+def parseETerm (s : String) : Option ErrEdges.Term :=
+  match (s.trimAscii.toString.splitOn " ").filter (· ≠ "") with
+  | ["g", l] => l.toNat?.map .goto
+  | ["b", k, v, n, t, f] =>
+    match t.toNat?, f.toNat? with
+    | some t, some f => some (.branch (if k == "e" then .isError else .bool) v.toNat? (n == "1") t f)
+    | _, _ => none
+  | ["r"] => some (.ret none)
+  | ["u"] => some .unreachable
+  | _ => none
+
+def parseEBlock (s : String) : Option ErrEdges.Block :=
+  match s.splitOn "#" with
+  | [ops, term] =>
+    let toks := (ops.trimAscii.toString.splitOn " ").filter (· ≠ "")
+    let os := toks.filterMap parseEOp
+    match parseETerm term with
+    | some t => if os.length = toks.length then some { ops := os, term := t } else none
+    | none => none
+  | _ => none
+
+def stepE (s : String) : String :=
+  let bs := (s.splitOn ";").map parseEBlock
+  if bs.any (·.isNone) then "bad-block-syntax"
+  else
+    let rec go (l : List (Option ErrEdges.Block)) (i : Nat) : String :=
+      match l with
+      | [] => "ok"
+      | some b :: rest => if ErrEdges.checkBlock b then go rest (i + 1) else s!"bad {i}"
+      | none :: _ => "bad-block-syntax"
+    go bs 0
+
 def stepV (H : Hier) : String :=
   let tbl := computeAll same H
   s!"wf={if wfAll H then 1 else 0} ; " ++ " ; ".intercalate (tbl.map (showClass H))
@@ -92,6 +137,7 @@ def step (line : String) : String :=
         s!"e={e} py={py}"
       | _, _ => "bad-query"
     | _ => "bad-query"
+  else if line.startsWith "E " then stepE (line.drop 2).toString
   else if line.startsWith "R " then
     match ((line.drop 2).toString.splitOn " ").filter (· ≠ "") with
     | [st, et, stp, a, b, n] =>
